@@ -1,10 +1,13 @@
 import Isotp.PyAgree.EvalLemmas
 import Isotp.Sock
 /-!
-  The three option writers of `isotp/tpsock/opts.py` (`GeneralOpts.write`, `FlowControlOpts.write`, `LinkLayerOpts.write`)
-  and the three guarded wrappers of `isotp/tpsock/__init__.py` (`socket.set_opts`, `set_fc_opts`, `set_ll_opts`):
-  the interpreted source (`Src.GeneralOpts_write`, ...) = the model (`Sock.writeOpts`, `writeFc`, `writeLl`, `setOpts`, ...),
+  The three option writers of `isotp/tpsock/opts.py` (`GeneralOpts.write`, `FlowControlOpts.write`, `LinkLayerOpts.write`),
+  the three guarded wrappers of `isotp/tpsock/__init__.py` (`socket.set_opts`, `set_fc_opts`, `set_ll_opts`) and `socket.bind`:
+  the interpreted source (`Src.GeneralOpts_write`, ...) = the model (`Sock.writeOpts`, `writeFc`, `writeLl`, `setOpts`, ..., `bind`),
   for ALL argument values (every `PyVal`, wrong-typed ones included) and every kernel option state.
+
+  Everything but the main theorems lives in the namespace `Isotp.PyAgree.SockOpts` (the helper names would otherwise clash with the
+  sibling modules); the main theorems are restated in `Isotp.PyAgree` in the last section (9), followed by `#print axioms`.
 
   ## How the object world is presented to the interpreter
 
@@ -26,11 +29,25 @@ import Isotp.Sock
       (the order of `Sock.calls`);
     - `failMeths` makes ANY `s.setsockopt` fail with the distinctive `PErr.unsupported "setsockopt"`.  A run under `failMeths` that
       ends in `ValueError` has therefore raised before the first `s.setsockopt` statement was executed.
+    The rejection theorems are in fact proved for an ARBITRARY semantics `sso` of `s.setsockopt` (`sockMeths sso`).
+  * the wrappers and `bind`: see the heads of sections 6 and 7.
 
-  ## Theorems (see the end of the file)
+  ## Method
 
-  `GeneralOpts_write_reject / _accept`, `FlowControlOpts_write_reject / _accept`, `LinkLayerOpts_write_reject / _accept`,
-  `socket_set_opts_agrees`, `socket_set_fc_opts_agrees`, `socket_set_ll_opts_agrees`.
+  One lemma per statement (`guarded_exec`, `flagBody_exec`, `gen_stage1` .. `gen_stage7`, `gen_tail_exec`, ...), chained with
+  `execBlock_cons_stage` / `execBlock_cons_ok`.  The state of a run is described by an invariant (`GenSt`, `FcSt`, `LlSt`: the
+  never-assigned names still hold their initial values, the attributes of `o` hold given integers within the C field ranges, the
+  number of recorded calls) instead of an explicit environment term, so the 2^7 None / not-None combinations never have to be
+  enumerated; `EqOff ks env env'` (`env'` differs from `env` at most on the keys `ks`) carries lookups across assignments, the
+  side conditions `k ∉ ks` being decided on string literals.  The model is restated as the same sequence of stages
+  (`writeOpts_eq`, `writeFc_eq`, `writeLl_eq`, `bind_eq`).
+
+  ## Theorems (section 9)
+
+  `or_two_pow_eq_orFlag`; `GeneralOpts_write_reject_any / _reject / _accept / _fail_iff`;
+  `FlowControlOpts_write_reject_any / _reject / _accept / _accept_fail`; `LinkLayerOpts_write_...` (the same four);
+  `socket_set_opts_exec / _agrees`, `socket_set_fc_opts_exec / _agrees`, `socket_set_ll_opts_exec / _agrees`;
+  `socket_bind_reject_any`, `socket_bind_accept`, `socket_bind_nonstr`.
 
   Values of the object attributes after the run are stated as integers (`IntAt env "o.optflag" n`: bound to a value `v` with
   `asInt v = some n`), not as `pint n`: `isinstance(True, int)` holds in Python (and in the model's `argOk`), so
